@@ -13,7 +13,7 @@ from vk.symx.harness import decide, decide_true, native_pair
 from vk.symx.poly import Poly, VarFactory
 
 GRAPH_ALGOS = ("Hopcroft-Karp", "Hungarian")
-SHIMS = ["renormalizer.model.op.Op.__mul__/__rmul__ accept an exact polynomial as scalar factor (the type check lists int/float/complex only)",
+SHIMS = ["renormalizer.model.op.Op.__mul__/__rmul__ and OpSum.__mul__/__rmul__ accept an exact polynomial as scalar factor (the type check lists int/float/complex only)",
          "for trees: the name _terms_to_table inside renormalizer.tn.symbolic_ttno returns the same table with the coefficient vector replaced by indeterminates"]
 
 
@@ -31,11 +31,24 @@ def op_shim():
         if isinstance(other, Poly):
             return opmod.Op(self.symbol, self.dofs, other * self.factor, self.qn_list)
         return orm(self, other)
+    sm_, srm_ = opmod.OpSum.__mul__, opmod.OpSum.__rmul__
+
+    def smul(self, other):
+        if isinstance(other, Poly):
+            return opmod.OpSum([op * other for op in self])
+        return sm_(self, other)
+
+    def srmul(self, other):
+        if isinstance(other, Poly):
+            return opmod.OpSum([other * op for op in self])
+        return srm_(self, other)
     opmod.Op.__mul__, opmod.Op.__rmul__ = mul, rmul
+    opmod.OpSum.__mul__, opmod.OpSum.__rmul__ = smul, srmul
     try:
         yield
     finally:
         opmod.Op.__mul__, opmod.Op.__rmul__ = om, orm
+        opmod.OpSum.__mul__, opmod.OpSum.__rmul__ = sm_, srm_
 
 
 def prove_chain(run):
